@@ -1028,3 +1028,122 @@ pub proof fn lemma_mm_end_pos(f: Seq<GTree>, lo: int, hi: int)
         }
     }
 }
+
+// ---- C17: source order of the combined listing, under the hypothesis order_compatible ----
+/// every pending marker that begins before the end of a ready marker is either squashed by it (both ends
+/// half-open-contained, the code's test) or begins no later than it. Nested-or-disjoint regions where a nested
+/// region ends strictly before its parent satisfy this; it is a HYPOTHESIS here (not proved from the forest).
+pub open spec fn order_compatible(rs: Seq<RemoveMarker>, p: Seq<RemoveMarker>) -> bool {
+    forall|n: int, c: int| 0 <= n < rs.len() && 0 <= c < p.len() && (#[trigger] p[c]).0.start < (#[trigger] rs[n]).0.end ==>
+        (rcontains(rs[n].0, p[c].0.start) && rcontains(rs[n].0, p[c].0.end)) || p[c].0.start <= rs[n].0.start
+}
+pub open spec fn istart(x: (RemoveMarker, bool)) -> int { x.0.0.start as int }
+pub open spec fn list_sorted_by_start(l: Seq<(RemoveMarker, bool)>) -> bool {
+    forall|i: int, j: int| 0 <= i <= j < l.len() ==> istart(#[trigger] l[i]) <= istart(#[trigger] l[j])
+}
+pub open spec fn list_between(l: Seq<(RemoveMarker, bool)>, lo: int, hi: int) -> bool {
+    forall|i: int| 0 <= i < l.len() ==> lo <= istart(#[trigger] l[i]) <= hi
+}
+pub proof fn lemma_list_sorted_append(a: Seq<(RemoveMarker, bool)>, b: Seq<(RemoveMarker, bool)>, lo: int, mid: int, hi: int)
+    requires list_sorted_by_start(a), list_sorted_by_start(b), list_between(a, lo, mid), list_between(b, mid, hi), lo <= mid <= hi,
+    ensures list_sorted_by_start(a + b), list_between(a + b, lo, hi),
+{
+    let l = a + b;
+    assert forall|i: int| 0 <= i < l.len() implies lo <= istart(#[trigger] l[i]) <= hi by {
+        if i < a.len() { assert(l[i] == a[i]); } else { assert(l[i] == b[i - a.len()]); }
+    }
+    assert forall|i: int, j: int| 0 <= i <= j < l.len() implies istart(#[trigger] l[i]) <= istart(#[trigger] l[j]) by {
+        if i < a.len() { assert(l[i] == a[i]); } else { assert(l[i] == b[i - a.len()]); }
+        if j < a.len() { assert(l[j] == a[j]); } else { assert(l[j] == b[j - a.len()]); }
+    }
+}
+/// the pending markers listed in front of ready marker n are in order, begin at or after the cursor's marker and
+/// no later than the ready marker
+pub proof fn lemma_consume_pending_sorted(rs: Seq<RemoveMarker>, n: int, p: Seq<RemoveMarker>, c: int, lo: int)
+    requires
+        0 <= n < rs.len(), 0 <= c <= p.len(), markers_sorted_by_start(p), order_compatible(rs, p),
+        c < p.len() ==> lo <= p[c].0.start,
+        lo <= rs[n].0.start,
+    ensures
+        list_sorted_by_start(consume_pending(rs[n].0, p, c).0),
+        list_between(consume_pending(rs[n].0, p, c).0, lo, rs[n].0.start as int),
+    decreases p.len() - c,
+{
+    let r = rs[n].0;
+    if c < p.len() && p[c].0.start < r.end {
+        let s = p[c].0.start as int;
+        assert(c + 1 < p.len() ==> p[c + 1].0.start >= p[c].0.start);
+        let squash = rcontains(r, p[c].0.start) && rcontains(r, p[c].0.end);
+        let rest = consume_pending(r, p, c + 1);
+        let head = if squash { Seq::<(RemoveMarker, bool)>::empty() } else { seq![(p[c], false)] };
+        if squash {
+            lemma_consume_pending_sorted(rs, n, p, c + 1, lo);
+            assert(head + rest.0 =~= rest.0);
+        } else {
+            assert(p[c].0.start <= rs[n].0.start);
+            lemma_consume_pending_sorted(rs, n, p, c + 1, s);
+            assert(head[0] == (p[c], false));
+            assert(list_sorted_by_start(head));
+            assert(list_between(head, lo, s));
+            lemma_list_sorted_append(head, rest.0, lo, s, r.start as int);
+        }
+    }
+}
+pub proof fn lemma_merge_all_sorted(rs: Seq<RemoveMarker>, p: Seq<RemoveMarker>, n: int)
+    requires 0 <= n <= rs.len(), markers_sorted(rs), markers_sorted_by_start(p), order_compatible(rs, p),
+    ensures
+        list_sorted_by_start(merge_all(rs, p, n).0),
+        n > 0 ==> list_between(merge_all(rs, p, n).0, 0, rs[n - 1].0.start as int),
+        n == 0 ==> merge_all(rs, p, n).0.len() == 0,
+    decreases n,
+{
+    if n > 0 {
+        lemma_merge_all_sorted(rs, p, n - 1);
+        lemma_merge_all_sub(rs, p, n - 1);
+        let prev = merge_all(rs, p, n - 1);
+        let r = rs[n - 1];
+        let mid: int = if n > 1 { rs[n - 2].0.start as int } else { 0 };
+        if n > 1 {
+            assert(rs[n - 2].0.start <= rs[n - 2].0.end);
+            assert(rs[n - 2].0.end <= rs[n - 1].0.start);
+        }
+        lemma_consume_pending_sorted(rs, n - 1, p, prev.1, mid);
+        let cp = consume_pending(r.0, p, prev.1);
+        assert(list_between(prev.0, 0, mid));
+        lemma_list_sorted_append(prev.0, cp.0, 0, mid, r.0.start as int);
+        let one = seq![(r, true)];
+        assert(one[0] == (r, true));
+        assert(list_sorted_by_start(one));
+        assert(list_between(one, r.0.start as int, r.0.start as int));
+        lemma_list_sorted_append(prev.0 + cp.0, one, 0, r.0.start as int, r.0.start as int);
+    }
+}
+/// C17 (conditional): when the two marker lists are order-compatible, the combined listing is in source order
+pub proof fn lemma_merge_all_final_sorted(rs: Seq<RemoveMarker>, p: Seq<RemoveMarker>)
+    requires markers_sorted(rs), markers_sorted_by_start(p), order_compatible(rs, p),
+    ensures list_sorted_by_start(merge_all_final(rs, p)),
+{
+    let n = rs.len() as int;
+    lemma_merge_all_sorted(rs, p, n);
+    lemma_merge_all_sub(rs, p, n);
+    let m = merge_all(rs, p, n);
+    if m.1 < p.len() {
+        let t = pending_tail(p, m.1);
+        let mid: int = if n > 0 { rs[n - 1].0.start as int } else { 0 };
+        if n > 0 { assert(rs[n - 1].0.start <= rs[n - 1].0.end); }
+        assert forall|i: int| 0 <= i < t.len() implies mid <= istart(#[trigger] t[i]) <= usize::MAX by {
+            assert(t[i] == (p[m.1 + i], false));
+            assert(p[m.1].0.start <= p[m.1 + i].0.start);
+        }
+        assert forall|i: int, j: int| 0 <= i <= j < t.len() implies istart(#[trigger] t[i]) <= istart(#[trigger] t[j]) by {
+            assert(t[i] == (p[m.1 + i], false));
+            assert(t[j] == (p[m.1 + j], false));
+            assert(p[m.1 + i].0.start <= p[m.1 + j].0.start);
+        }
+        if n == 0 { assert(m.0 + t =~= t); } else {
+            lemma_list_sorted_append(m.0, t, 0, mid, usize::MAX as int);
+        }
+    } else {
+        assert(m.0 + Seq::<(RemoveMarker, bool)>::empty() =~= m.0);
+    }
+}
